@@ -528,8 +528,11 @@ pub trait ExecutableTransaction:
             // Note: the initial balance deducts the gas limit from base asset
             Output::Change {
                 asset_id, amount, ..
-            } if revert && asset_id == base_asset_id => initial_balances.non_retryable
-                [base_asset_id]
+            } if revert && asset_id == base_asset_id => initial_balances
+                .non_retryable
+                .get(base_asset_id)
+                .copied()
+                .unwrap_or_default()
                 .checked_add(gas_refund)
                 .map(|v| *amount = v)
                 .ok_or(ValidityError::BalanceOverflow),
